@@ -291,6 +291,13 @@ CYCLIC_SEGV = {
     "meta": {"kinds": {"cyclic": 1}, "n_unknowns": 3, "elim_graph": {"_e1": ["_e2"], "_e2": ["_e1"]}}}
 
 
+CYCLIC_OSC = {
+    "text": "model M\n  Real _e1;\n  Real _e2;\n  Real a3;\nequation\n  _e1 = _e2;\n  _e2 = _e1;\n  a3 = _e1 + 1;\nend M;\n",
+    "cls": "M", "options": {"eliminable_variable_expression": ELIM_RE, "expand_mx": True},
+    "point": {"time": 0.0, "_e1": 1.5, "_e2": 1.5, "a3": 2.5}, "points": [{"time": 0.0, "_e1": 0.5, "_e2": -1.0, "a3": 2.0}],
+    "meta": {"kinds": {"cyclic": 1}, "n_unknowns": 3, "elim_graph": {"_e1": ["_e2"], "_e2": ["_e1"]}, "singular": True}}
+
+
 def has_cycle(graph):
     seen, stack = set(), set()
 
@@ -335,7 +342,7 @@ def generator_problem(case, res):
             return "original %s refer to %s" % (k, pre[k])
         if any(fr(v) != 0 for v in pre[k]):
             return "constructed point is not a solution of the ORIGINAL model (%s = %s)" % (k, pre[k])
-    if len(pre["ders"]) + len(pre["algs"]) != len(pre["eqs"]):
+    if len(pre["ders"]) + len(pre["algs"]) != len(pre["eqs"]) and not case["meta"].get("singular"):
         return "generated model is not square"
     return None
 
@@ -571,6 +578,7 @@ def shared_run(ctx, judge, pid):
     ctx.notes["source_fingerprint"] = {"model.py:Model": fp, "alias_relation.py:AliasRelation": fp2}
     cases, extra, n_corpus = build_cases(ctx)
     workers = 4 if ctx.tier == "quick" else 4
+    cases.append(CYCLIC_OSC)
     results = run_children(ctx, cases + extra + [CYCLIC_SEGV], workers)
     res_main, res_extra, res_cyc = results[:len(cases)], results[len(cases):len(cases) + len(extra)], results[-1]
     # generator sanity: a broken generator must never look like a verdict
